@@ -79,7 +79,7 @@ class _Parser:
         suite_file_path = pathlib.Path(file_argument)
         try:
             stat_mode = suite_file_path.stat().st_mode
-        except FileNotFoundError as ex:
+        except (FileNotFoundError, NotADirectoryError) as ex:
             raise ArgumentParsingError('Files does not exist: ' + file_argument)
 
         if stat.S_ISREG(stat_mode):
